@@ -3,6 +3,7 @@ package main
 import (
 	"fmt"
 	"go/ast"
+	"os"
 	"path/filepath"
 	"reflect"
 	"sort"
@@ -188,8 +189,238 @@ func mustString(en env, name, file string) string {
 	return s
 }
 
+// ---- C09: shared-state access facts of package protocol
+
+type accessFact struct {
+	fn    string
+	loc   string
+	write bool
+	held  []string
+}
+
+var sharedLocs = []string{"Connections", "BytesSent", "transportOut.WritePacket", "IdleTimeout"}
+
+func lockCall(s ast.Stmt, method string) (string, bool) {
+	es, ok := s.(*ast.ExprStmt)
+	if !ok {
+		return "", false
+	}
+	c, ok := es.X.(*ast.CallExpr)
+	if !ok {
+		return "", false
+	}
+	sel, ok := c.Fun.(*ast.SelectorExpr)
+	if !ok || sel.Sel.Name != method {
+		return "", false
+	}
+	return exprString(sel.X), true
+}
+
+func accessesIn(n ast.Node) (out []struct {
+	loc   string
+	write bool
+}) {
+	writes := map[ast.Node]bool{}
+	ast.Inspect(n, func(n ast.Node) bool {
+		switch x := n.(type) {
+		case *ast.AssignStmt:
+			for _, l := range x.Lhs {
+				ast.Inspect(l, func(m ast.Node) bool {
+					if m != nil {
+						writes[m] = true
+					}
+					return true
+				})
+			}
+		case *ast.IncDecStmt:
+			ast.Inspect(x.X, func(m ast.Node) bool {
+				if m != nil {
+					writes[m] = true
+				}
+				return true
+			})
+		case *ast.CallExpr:
+			if id, ok := x.Fun.(*ast.Ident); ok && id.Name == "delete" && len(x.Args) > 0 {
+				ast.Inspect(x.Args[0], func(m ast.Node) bool {
+					if m != nil {
+						writes[m] = true
+					}
+					return true
+				})
+			}
+		}
+		return true
+	})
+	ast.Inspect(n, func(n ast.Node) bool {
+		switch x := n.(type) {
+		case *ast.Ident:
+			if x.Name == "Connections" {
+				out = append(out, struct {
+					loc   string
+					write bool
+				}{"Connections", writes[x]})
+			}
+		case *ast.SelectorExpr:
+			switch x.Sel.Name {
+			case "BytesSent", "IdleTimeout":
+				out = append(out, struct {
+					loc   string
+					write bool
+				}{x.Sel.Name, writes[x] || writes[x.Sel]})
+			}
+		case *ast.CallExpr:
+			if strings.HasSuffix(exprString(x.Fun), "transportOut.WritePacket") {
+				out = append(out, struct {
+					loc   string
+					write bool
+				}{"transportOut.WritePacket", true})
+			}
+		}
+		return true
+	})
+	return
+}
+
+func accessFacts() []accessFact {
+	var facts []accessFact
+	dir := filepath.Join(repo, "cmd/rdpgw/protocol")
+	ents, err := os.ReadDir(dir)
+	if err != nil {
+		die("cmd/rdpgw/protocol: %v", err)
+	}
+	for _, e := range ents {
+		if !strings.HasSuffix(e.Name(), ".go") || strings.HasSuffix(e.Name(), "_test.go") {
+			continue
+		}
+		src, _ := os.ReadFile(filepath.Join(dir, e.Name()))
+		if strings.Contains(string(src), "//go:build verif") {
+			continue
+		}
+		f := load("cmd/rdpgw/protocol/" + e.Name())
+		for _, d := range f.Decls {
+			fd, ok := d.(*ast.FuncDecl)
+			if !ok || fd.Body == nil {
+				continue
+			}
+			name := fd.Name.Name
+			if fd.Recv != nil && len(fd.Recv.List) == 1 {
+				name = strings.TrimPrefix(exprString(fd.Recv.List[0].Type), "*") + "." + name
+			}
+			if strings.HasPrefix(name, "ClientConfig.") {
+				continue // client.go is the gateway's own RDG client, not part of the server
+			}
+			held := map[string]bool{}
+			for _, st := range fd.Body.List {
+				if x, ok := lockCall(st, "Lock"); ok {
+					held[x] = true
+					continue
+				}
+				if x, ok := lockCall(st, "Unlock"); ok {
+					delete(held, x)
+					continue
+				}
+				var hs []string
+				for h := range held {
+					hs = append(hs, h)
+				}
+				sort.Strings(hs)
+				for _, a := range accessesIn(st) {
+					facts = append(facts, accessFact{fn: name, loc: a.loc, write: a.write, held: hs})
+				}
+			}
+		}
+	}
+	return facts
+}
+
+// ---- C11: cleanup facts
+
+func deferCalls(fn *ast.FuncDecl) []string {
+	var r []string
+	ast.Inspect(fn.Body, func(n ast.Node) bool {
+		if d, ok := n.(*ast.DeferStmt); ok {
+			r = append(r, exprString(d.Call))
+		}
+		return true
+	})
+	return r
+}
+
+func closeCalls(fn *ast.FuncDecl) []string {
+	var r []string
+	ast.Inspect(fn.Body, func(n ast.Node) bool {
+		if c, ok := n.(*ast.CallExpr); ok && strings.HasSuffix(exprString(c.Fun), ".Close") {
+			r = append(r, exprString(c))
+		}
+		return true
+	})
+	return r
+}
+
+func coqByteList(name string, vs []string) string {
+	parts := make([]string, len(vs))
+	for i, v := range vs {
+		parts[i] = coqBytes(v)
+	}
+	return fmt.Sprintf("Definition %s : list bytes := [%s]. (* %q *)\n", name, strings.Join(parts, "; "), vs)
+}
+
+func findMethod(rel, recv, name string) *ast.FuncDecl {
+	f := load(rel)
+	for _, d := range f.Decls {
+		if fd, ok := d.(*ast.FuncDecl); ok && fd.Name.Name == name && fd.Body != nil && fd.Recv != nil &&
+			strings.TrimPrefix(exprString(fd.Recv.List[0].Type), "*") == recv {
+			return fd
+		}
+	}
+	die("%s: method %s.%s", rel, recv, name)
+	return nil
+}
+
 func writeFacts(outDir string) {
 	facts.WriteString("(* GENERATED by tools/gofacts from the current /repo working tree. Do not edit. *)\n")
-	facts.WriteString("From Coq Require Import List NArith.\nFrom Coq.Strings Require Import Byte.\nFrom RDPGW Require Import Lib.Bytes.\nImport ListNotations.\n\n")
+	facts.WriteString("From Coq Require Import List NArith.\nFrom Coq.Strings Require Import Byte.\nFrom RDPGW Require Import Lib.Bytes.\nImport ListNotations.\nOpen Scope N_scope.\n\n")
+	// C09
+	af := accessFacts()
+	locID := map[string]int{}
+	for i, l := range sharedLocs {
+		locID[l] = i + 1
+		fmt.Fprintf(&facts, "Definition LOC_%s : N := %d.\n", strings.ReplaceAll(l, ".", "_"), i+1)
+	}
+	lockID := map[string]int{}
+	var lockNames []string
+	for _, a := range af {
+		for _, h := range a.held {
+			if _, ok := lockID[h]; !ok {
+				lockID[h] = len(lockID) + 1
+				lockNames = append(lockNames, h)
+			}
+		}
+	}
+	var rows []string
+	for _, a := range af {
+		var hs []string
+		for _, h := range a.held {
+			hs = append(hs, fmt.Sprint(lockID[h]))
+		}
+		rows = append(rows, fmt.Sprintf("  (%s, %d, %v, [%s]) (* %s %s write=%v held=%v *)", coqBytes(a.fn), locID[a.loc], a.write, strings.Join(hs, "; "), a.fn, a.loc, a.write, a.held))
+		anchors = append(anchors, fmt.Sprintf("ACCESS %s %s write=%v held=%v", a.fn, a.loc, a.write, a.held))
+	}
+	fmt.Fprintf(&facts, "(* locks: %v *)\n", lockNames)
+	facts.WriteString("Definition ACCESS_FACTS : list (bytes * N * bool * list N) := [\n" + strings.Join(rows, ";\n") + "\n].\n\n")
+	// C11
+	const gwgo = "cmd/rdpgw/protocol/gateway.go"
+	facts.WriteString(coqByteList("WS_DEFERS", deferCalls(findMethod(gwgo, "Gateway", "handleWebsocketProtocol"))))
+	facts.WriteString(coqByteList("LEGACY_DEFERS", deferCalls(findMethod(gwgo, "Gateway", "handleLegacyProtocol"))))
+	facts.WriteString(coqByteList("UPGRADE_DEFERS", deferCalls(findMethod(gwgo, "Gateway", "HandleGatewayProtocol"))))
+	tc := []string{}
+	f := load("cmd/rdpgw/protocol/tunnel.go")
+	for _, d := range f.Decls {
+		if fd, ok := d.(*ast.FuncDecl); ok && fd.Name.Name == "Close" && fd.Recv != nil {
+			tc = closeCalls(fd)
+		}
+	}
+	facts.WriteString(coqByteList("TUNNEL_CLOSE_CALLS", tc))
+	facts.WriteString(coqByteList("FORWARD_DEFERS", deferCalls(findFunc("cmd/rdpgw/protocol/common.go", "forward"))))
 	writeIfChanged(filepath.Join(outDir, "Facts.v"), facts.String())
 }
